@@ -203,7 +203,7 @@ func (c *Client) Connect(config *Config) (ConnectFuture, error) {
 	if c.clean {
 		err = c.Session.Reset()
 		if err != nil {
-			return nil, c.cleanup(err, true, false)
+			return nil, c.abort(err, true)
 		}
 	}
 
@@ -230,7 +230,7 @@ func (c *Client) Connect(config *Config) (ConnectFuture, error) {
 	// send connect packet
 	err = c.send(connect, false)
 	if err != nil {
-		return nil, c.cleanup(err, false, false)
+		return nil, c.abort(err, false)
 	}
 
 	// start process routine
@@ -825,6 +825,16 @@ func (c *Client) die(err error, closeConn bool) error {
 			_ = c.Callback(nil, err)
 		}
 	})
+
+	return err
+}
+
+// used to clean up when connecting fails before the processor has been started
+func (c *Client) abort(err error, closeConn bool) error {
+	err = c.cleanup(err, closeConn, false)
+
+	// reset state as there is no processor a later Close could wait for
+	atomic.StoreUint32(&c.state, clientInitialized)
 
 	return err
 }
